@@ -11,6 +11,7 @@ import TzVerif.Properties.C06
 import TzVerif.Properties.C07
 import TzVerif.Properties.C08
 import TzVerif.Properties.C09
+import TzVerif.Properties.C10
 import TzVerif.Properties.C11
 import TzVerif.Properties.C12
 import TzVerif.Properties.C13
